@@ -367,7 +367,12 @@ mod vk_vec_n4 {
         else if op == 1 { let _ = it.next_chunk(n).map(|c| c.begin_idx); chk_std_ops(0, n, len); }
         else if op == 2 { kani::assume(n > 0); { let mut b = it.buffered_iter(n); let _ = b.next().map(|c| c.begin_idx); }; chk_std_ops(0, n, len); }
         else if op == 3 { it.skip_to_end(); chk_std_ops(2, 0, len); }
-        else if op == 4 { let _ = it.try_get_len(); let _ = it.has_more(); chk_std_ops(1, 0, len); }
+        else if op == 4 {
+            let r = it.try_get_len(); chk_std_ops(1, 0, len);
+            assert!(n_loads() == 1 && r == Some(remaining(last_load_ret(), len)), "[C11 C05 C06 std-len] try_get_len is max(len - c, 0) for the counter value c it read, whatever that value is");
+            let h = it.has_more(); let k = remaining(last_load_ret(), len);
+            assert!(h == if k == 0 { crate::HasMore::No } else { crate::HasMore::Yes(k) }, "[C11 C05 C06 std-more] has_more is No iff nothing remains, else Yes(remaining)");
+        }
         std::mem::forget(it);
     }
 
